@@ -8,7 +8,8 @@
    C08_one_constraint discharges all of them for a PCBO holding an objective and one comparison constraint;
    C08_reduced continues through degree reduction (C01) and convert_solution. *)
 From QV.Model Require Import Base Matrix Arith Expr Extrema Sat PCBO Convert PCSO Reduce.
-From QV.Proofs Require Import BaseProofs KeyProofs ArithProofs InvProofs ConvertProofs PenaltyArith PCBOProofs PCSOProofs ReduceProofs WorkflowProofs WorkflowSeq.
+From QV.Proofs Require Import BaseProofs KeyProofs ArithProofs InvProofs ConvertProofs PenaltyArith PCBOProofs PCSOProofs ReduceProofs WorkflowProofs WorkflowSeq WorkflowMixed.
+From QV.Model Require Import Logic.
 Open Scope Q_scope.
 
 Theorem C08_abstract : forall (f : env -> Q) (n : nat) (G : nat -> env -> Q) (lam : nat -> Q) (R : nat -> env -> Prop)
@@ -108,8 +109,52 @@ Proof. exact workflow_seq_reduced_inv. Qed.
 Print Assumptions C08_sequence_reduced.
 
 (* non-vacuity: minimise -x0 - x1 - x2 subject to x0 + x1 + x2 - 2 <= 0 with weight 4 > 3 = spread *)
+(* any sequence that mixes comparison constraints and the sixteen logic constraints on one PCBO (run_mixed: the calls in
+   order; a comparison constraint warned unsatisfiable aborts).  mcall_ok: positive weights, integer-valued comparison
+   polynomials with valid bounds, logic operands 0/1-valued, no ancilla labels in what the user passes in.  With every weight
+   above max f - min f: a minimiser of the penalised model satisfies every constraint, minimises f over the assignments that
+   satisfy all of them, and the minimum is the constrained optimum. *)
+Theorem C08_sequence_mixed : forall cs m m' W x0 xs,
+  run_mixed m cs = Ok m' -> bkind (kd m) -> no_anc (tm m) -> Forall mcall_ok cs ->
+  let f := fun x => eval x (tm m) in
+  (forall x x', boolean_env x -> boolean_env x' -> f x - f x' <= W) ->
+  (forall c, In c cs -> W < mlam c) ->
+  boolean_env x0 -> (forall c, In c cs -> mR c x0) ->
+  boolean_env xs -> (forall x, boolean_env x -> eval xs (tm m') <= eval x (tm m')) ->
+  (forall c, In c cs -> mR c xs) /\
+  (forall x, boolean_env x -> (forall c, In c cs -> mR c x) -> f xs <= f x) /\
+  eval xs (tm m') == f xs.
+Proof. exact workflow_mixed. Qed.
+Print Assumptions C08_sequence_mixed.
+
+(* ... continued through any degree reduction (to_pubo / to_qubo and the boolean side of to_puso / to_quso) and
+   convert_solution (pull), assuming only the bookkeeping invariant of the objective model *)
+Theorem C08_sequence_mixed_reduced : forall cs m m' W x0 out deg l pairs D s,
+  run_mixed m cs = Ok m' -> bkind (kd m) -> no_anc (tm m) -> Forall mcall_ok cs ->
+  let f := fun x => eval x (tm m) in
+  (forall x x', boolean_env x -> boolean_env x' -> f x - f x' <= W) ->
+  (forall c, In c cs -> W < mlam c) ->
+  boolean_env x0 -> (forall c, In c cs -> mR c x0) ->
+  reduce_degree m' out deg l pairs = Ok D -> bmat out -> Inv m -> is_labelled (kd m) = true ->
+  (forall ms, mapped_self (mp m') (tm m') = Ok ms -> forall k v, In (k, v) ms -> Qabs v <= lam_fun l v) ->
+  boolean_env s -> (forall s', boolean_env s' -> eval s (tm D) <= eval s' (tm D)) ->
+  let xs := ConvertProofs.pull (mp m') s in
+  (forall c, In c cs -> mR c xs) /\
+  (forall x, boolean_env x -> (forall c, In c cs -> mR c x) -> f xs <= f x) /\
+  eval s (tm D) == f xs.
+Proof. exact workflow_mixed_reduced. Qed.
+Print Assumptions C08_sequence_mixed_reduced.
+
 Example C08_example :
   exists m m' w t, m_create KPcbo [([0]%nat, -(1)); ([1]%nat, -(1)); ([2]%nat, -(1))] = Ok m
     /\ add_constraint RLe m [([0]%nat, 1); ([1]%nat, 1); ([2]%nat, 1); ([], -(2))] 4 true (None, None) = Ok (m', w, t)
     /\ w = WNone /\ (0 < anc m')%nat.
 Proof. eexists. eexists. eexists. eexists. vm_compute. repeat split. apply Nat.lt_0_succ. Qed.
+
+(* non-vacuity of the mixed form: x0 + x1 + x2 <= 2 followed by x0 == (x1 AND x2) on a PCBO *)
+Example C08_example_mixed :
+  exists m m', m_create KPcbo [([0]%nat, -(1)); ([1]%nat, -(1)); ([2]%nat, -(1))] = Ok m
+    /\ run_mixed m [MC {| cc_rel := RLe; cc_P := [([0]%nat, 1); ([1]%nat, 1); ([2]%nat, 1); ([], -(2))]; cc_lam := 4; cc_log := true; cc_bounds := (None, None) |};
+                    ML GAnd true [SLbl 0%nat; SLbl 1%nat; SLbl 2%nat] 4] = Ok m'
+    /\ (0 < anc m')%nat /\ (length (tm m) < length (tm m'))%nat.
+Proof. eexists. eexists. split; [vm_compute; reflexivity|]. split; [vm_compute; reflexivity|]. split; vm_compute; repeat constructor. Qed.
